@@ -31,6 +31,7 @@ type Result struct {
 	Notes       []string       `json:"notes"`
 	Traces      int            `json:"traces"`
 	distinct    map[string]struct{}
+	perSig      map[string]int
 }
 
 func NewResult() *Result {
@@ -71,7 +72,12 @@ func (r *Result) Note(format string, a ...any) {
 func (r *Result) Mismatch(sig, desc string, replay any) {
 	r.mu.Lock()
 	defer r.mu.Unlock()
-	if len(r.Mismatches) < 200 {
+	// at most 5 per signature (the first ones), 300 in total
+	if r.perSig == nil {
+		r.perSig = map[string]int{}
+	}
+	r.perSig[sig]++
+	if r.perSig[sig] <= 5 && len(r.Mismatches) < 300 {
 		r.Mismatches = append(r.Mismatches, Mismatch{sig, desc, replay})
 	}
 }
